@@ -240,7 +240,52 @@ def r5_stream_zero(ctx):
         r.check(bool(z), 'data|nonzero', d.file, 'Data::new asserts a non-zero stream id')
 
 
+def state_guard(F, g, site):
+    """states (of the 15 reference states) in which `site` can execute, from the State::is_* tests whose edges dominate it"""
+    from .. import rfcstates as R
+    conds = []
+    for bi, sw in core.all_switches(F, g).items():
+        if sw is None or sw.kind != 'bool':
+            continue
+        e = strip(sw.subject)
+        if e[0] != 'call' or not e[1].startswith('proto::streams::state::State::is_'):
+            continue
+        name = e[1].rsplit('::', 1)[-1]
+        if name not in R.PREDICATES:
+            continue
+        for s2, lab in sw.labels.items():
+            if lab is not None and g.dominated_by_edges(site, [(bi, s2)]):
+                conds.append((name, lab))
+    allowed = [st for st in R.concrete_states() if all(bool(R.PREDICATES[n](st)) == v for n, v in conds)]
+    return conds, allowed
+
+
+def r6_window_update_states(ctx):
+    r = ctx.rule('C04.R6', 'TSTATE', 'a stream WINDOW_UPDATE is built only in states in which the stream is still receiving (never after RST_STREAM / on a closed stream)')
+    F = ctx.facts
+    from .. import absint
+    n = 0
+    for name, g in sorted(F.fns.items()):
+        if not name.startswith(P + 'recv::Recv::') or '::tests::' in name:
+            continue
+        for bi, t in g.calls_to('frame::window_update::WindowUpdate::new'):
+            e = strip(g.expr_of_op(t['a'][0]))
+            if e[0] == 'call' and e[1].endswith('StreamId::zero'):
+                continue  # connection-level update
+            n += 1
+            conds, allowed = state_guard(F, g, bi)
+            closed = [st for st in allowed if st[2] == 'Closed']
+            r.check(bool(conds) and not closed, 'window-update|%s' % name.replace(P, ''), g.loc(bi),
+                    'WINDOW_UPDATE for a stream is built under %s: %s' % (conds, 'no closed state passes' if conds and not closed else
+                                                                         'closed states %s pass — a WINDOW_UPDATE can follow the RST_STREAM of a locally reset stream (RFC 9113 §5.1: nothing but PRIORITY on a closed stream)' % [absint.show(x) for x in closed]))
+    r.floor(n, 1, 'stream WINDOW_UPDATE build sites')
+
+
 def run(ctx):
+    r6_window_update_states(ctx)
+    from . import C09, C01
+    C09.r8_idle_boundary(ctx, 'C04.R7')      # stream identifiers are never re-used: one idle boundary, advance to id.next_id()
+    C01.r5_block_contiguity(ctx, 'C04.R8')   # HEADERS / PUSH_PROMISE and their CONTINUATIONs are contiguous
     r1_tstate(ctx)
     r2_ids(ctx)
     r3_enqueue_guard(ctx)
